@@ -50,6 +50,21 @@ class BuiltinsMixin(object):
             return
         if name in ("numpy", "scipy", "PIL"):
             self.raise_("ModuleNotFoundError", "No module named '%s'" % name)
+        if name == "sys":
+            import sys as _sys
+
+            fi = ModuleVal("float_info", {"min": self.concrete_float(_sys.float_info.min),
+                                           "max": self.concrete_float(_sys.float_info.max),
+                                           "epsilon": self.concrete_float(_sys.float_info.epsilon)})
+            env.vars[asname] = ModuleVal("sys", {"float_info": fi, "maxsize": _sys.maxsize})
+            return
+        if name == "math":
+            env.vars[asname] = ModuleVal("math", {n: Builtin(n, getattr(self, "m_" + n)) for n in (
+                "sqrt", "cos", "sin", "tan", "hypot", "radians", "degrees", "acos", "atan", "atan2", "log", "ceil")})
+            env.vars[asname].ns["tau"] = self.math_const("tau")
+            env.vars[asname].ns["pi"] = self.math_const("pi")
+            env.vars[asname].ns["inf"] = float("inf") if self.float_mode else None
+            return
         if name == "gzip":
             raise Undecided("gzip")
         raise Undecided("import %s" % name)
